@@ -20,6 +20,11 @@ Streams
             the model does not cover (use_sigmoid, relu_upper_bound, is_quantized_clip, alpha='auto*',
             quantized_hswish, qnoise_factor, use_ste, bits=8 po2, max_value a power of two with an odd
             exponent ...), twice on the same object, without a single random draw
+  sctor     (second strengthening round) the last clause on OBJECTS: stochastic_ternary / stochastic_binary /
+            ternary(flag) against the deterministic class built from the SAME full argument set, over alpha x
+            threshold x number_of_unrolls x temperature x use_real_sigmoid, four API routes, three argument forms,
+            on "cascade" tensors on which the number of unrolls matters; attributes vs the Lean constructor
+            model; whole-call Lean model (unrolled scale/threshold iteration) per channel
 """
 from fractions import Fraction
 import math
@@ -416,6 +421,14 @@ def run(run: core.Run, tier: str):
       "tf.function), shape changed between calls, built under the opposite phase, "
       "use_stochastic_rounding re-assigned off/on; set_internal_sigmoid smooth/real switched after "
       "construction. Lattice stream: ~300 option combinations outside the model, inference clause only. "
+      "sctor stream: stochastic_ternary / stochastic_binary / ternary(flag) over alpha {None,1,0.5,2,auto,auto_po2} x "
+      "threshold {None,0,0.25,0.33,0.5,2} x number_of_unrolls {0,1,2,3,5,8} x temperature x use_real_sigmoid, routes "
+      "keywords / positional / from_config / get_quantizer(str), argument forms python / np32 / np64, against the "
+      "deterministic class built from the same shared arguments at phase 0 on cascade tensors (every iteration of "
+      "the scale/threshold loop changes the zero pattern; sensitivity per unroll count is measured on the real "
+      "code: histogram unroll_*), second call, after a training call, after number_of_unrolls is re-assigned, "
+      "after _set_trainable_parameter; attributes vs the Lean constructors; Lean whole-call model per channel "
+      "(exact for auto_po2 inside the 2^-10 band around sqrt2*2^k and for numeric alpha, sign pattern for auto). "
       "non-trivial = distinct (class, configuration, stream, variant)")
   run.assumptions += [
       "tf.random.uniform returns float32 multiples of 2^-23 in [0,1), independent per element; it is "
@@ -486,6 +499,7 @@ def run(run: core.Run, tier: str):
     _binary(run, tier, rng, tf, Q, K, draws, call)
     _ternary(run, tier, rng, tf, Q, K, draws, call)
     _sclasses(run, tier, rng, tf, Q, K, draws, call)
+    _sctor(run, tier, np.random.default_rng([run.seed, 808]), tf, Q, K, draws, call)
   finally:
     draws.uninstall()
     K.set_learning_phase(0)
@@ -1056,6 +1070,397 @@ def _sclasses(run, tier, rng, tf, Q, K, draws, call):
       if q not in (-1, 0, 1):
         run.violate("adjacent", {"class": "stochastic_ternary", "kind": "not-a-code"},
                     {"output": float(yi), "scale": float(si)}, mirrored=False)
+
+
+# ---- constructors of the stochastic classes: the deterministic counterpart built from the SAME arguments ----
+
+GRID = 2 ** 12          # cascade magnitudes are multiples of 2^-12 in (0, 1]
+
+
+def cascade_column(rng, po2, steps, max_rows):
+  """magnitudes (Fractions, max = 1) on which the scale/threshold iteration of ternary's alpha='auto*'
+  branch has NOT converged after `steps` iterations: every iteration lowers the threshold scale/2 just
+  below the next group of values, whose inclusion lowers the least-squares scale again (for 'auto_po2' by
+  at least one power of two).  Margins >= 1/32 (relative) around every threshold and (po2) around the
+  rounding boundaries sqrt2*2^k, so float32 noise cannot change a decision.  Python emulation is used for
+  STEERING only; the judgement is the real twin / the Lean model."""
+  def rnd(sc):
+    if not po2:
+      return sc
+    e = math.floor(math.log2(float(sc))) - 1
+    while Fraction(2) ** (2 * e + 1) <= sc * sc:       # 2^(e+1/2) <= sc: round(log2 sc) > e
+      e += 1
+    return Fraction(2) ** e
+  vals = [Fraction(1)]
+  total, cnt = Fraction(1), 1
+  scale = rnd(Fraction(2, 3))
+  t_prev = None
+  for _ in range(steps):
+    thr = scale / 2
+    # S_k = {|x| > thr}: the new group sits just above thr (and below the previous threshold) ...
+    v = Fraction(math.ceil(thr * (1 + Fraction(int(rng.integers(3, 7 if po2 else 9)), 64)) * GRID), GRID)
+    if t_prev is not None and not (v < t_prev * Fraction(31, 32)):
+      break
+    # ... and is large enough to pull the least-squares scale (mean of |x| over S_k) down to `target`:
+    # below the rounding boundary scale/sqrt2 for 'auto_po2' (margin 4 %), to 11/16 .. 13/16 of it for 'auto'
+    target = scale * (Fraction(87, 128) if po2 else Fraction(int(rng.integers(22, 27)), 32))
+    if v >= target:
+      break
+    c = max(int(math.floor((total - target * cnt) / (target - v))) + 1, 1)
+    c += int(rng.integers(0, max(2, c // 16)))
+    if cnt + c > max_rows:
+      break
+    vals += [v] * c
+    total += v * c
+    cnt += c
+    t_prev = thr
+    new = rnd(total / cnt)
+    if not new < scale:
+      break
+    scale = new
+  return vals
+
+
+def cascade_tensor(rng, po2, steps, max_rows, ncols):
+  """rank-2 tensor (rows, ncols): every column its own cascade, times a power of two, random signs, rows
+  shuffled, padded with values far below every threshold (0 and +-2^-12 * column scale)"""
+  cols = []
+  for _ in range(ncols):
+    mags = cascade_column(rng, po2, steps, max_rows)
+    sc = Fraction(2) ** int(rng.integers(-3, 3))
+    col = [m * sc * (1 if rng.integers(0, 2) else -1) for m in mags]
+    cols.append((col, sc))
+  rows = max(len(c) for c, _ in cols) + 3
+  out = []
+  for col, sc in cols:
+    pad = [Fraction(0), sc / GRID, -sc / GRID]
+    col = col + [pad[i % 3] for i in range(rows - len(col))]
+    perm = rng.permutation(rows)
+    out.append([col[int(i)] for i in perm])
+  return [[out[j][i] for j in range(ncols)] for i in range(rows)]       # row major
+
+
+def _alpha_wire(alpha):
+  if alpha is None or isinstance(alpha, str):
+    return alpha
+  return core.rj(Fraction(float(np.float32(alpha))))
+
+
+def _thr_wire(thr):
+  return None if thr is None else core.rj(Fraction(float(np.float32(thr))))
+
+
+def _attr_plain(v):
+  """attribute value as a comparable python value (numbers as exact Fractions)"""
+  if v is None or isinstance(v, (str, bool)):
+    return v
+  if isinstance(v, np.bool_):
+    return bool(v)
+  try:
+    return Fraction(float(np.float32(v)))          # options reach the float32 graph: compare as float32
+  except Exception:  # pylint: disable=broad-except
+    return repr(v)
+
+
+def _model_attr(v):
+  if isinstance(v, list):
+    return Fraction(int(v[0]), int(v[1]))
+  if isinstance(v, int) and not isinstance(v, bool):
+    return Fraction(v)
+  return v
+
+
+S_ROUTES = ("kw", "pos", "from_config", "str")
+
+
+def _build_route(Q, cls, kw, order, route, form):
+  """the same constructor arguments through another API route / argument form"""
+  kw = {k: (_form(v, form) if k in ("number_of_unrolls", "temperature", "threshold") else v) for k, v in kw.items()}
+  C = getattr(Q, cls)
+  if route == "kw":
+    return C(**kw)
+  if route == "pos":
+    return C(*[kw[k] for k in order])
+  if route == "from_config":
+    return C.from_config(C(**kw).get_config())
+  text = str(C(**kw))
+  return Q.get_quantizer(text)
+
+
+def _sctor(run, tier, rng, tf, Q, K, draws, call):
+  """last clause of the property on OBJECTS: stochastic_ternary / stochastic_binary (and ternary / binary with
+  the flag) at phase 0 equal the deterministic class built from the same FULL argument set, over the option
+  lattice alpha x threshold x number_of_unrolls x temperature x use_real_sigmoid, on tensors on which the
+  number of unrolls matters; the attributes the calls read equal the constructor arguments (Lean `init`)."""
+  quick = tier == "quick"
+  unrolls_all = (1, 2, 3, 5, 8)
+  temps = (8.0, 1.0, 0.25)
+  # --- tensors -------------------------------------------------------------------------------------
+  tens = {}
+  for alpha, po2 in (("auto", False), ("auto_po2", True)):
+    big = cascade_tensor(rng, po2, 9, 100000 if po2 else 900, 2)         # twin comparison only
+    small = cascade_tensor(rng, po2, 9 if not po2 else 4, 320 if not po2 else 520, 3)      # also sent to the Lean model
+    tens[alpha] = [("cascade-big", big), ("cascade-small", small)]
+  flat = [Fraction(int(k), 64) for k in rng.integers(-160, 161, size=52)] + \
+      [Fraction(0), Fraction(0), Fraction(1, 4), Fraction(-1, 4), Fraction(1, 2), Fraction(-1, 2), Fraction(2), Fraction(-2),
+       Fraction(1), Fraction(-1), Fraction(21, 64), Fraction(11, 32)]
+  flat32 = f32list(flat)                                                # 64 values
+
+  arr_cache = {}
+
+  def arr(t):
+    if id(t) not in arr_cache:
+      a32 = np.array([[float(v) for v in row] for row in t], dtype=np.float32)   # multiples of 2^-15, |x| <= 4
+      arr_cache[id(t)] = (a32.reshape(-1), (len(t), len(t[0])))
+    return arr_cache[id(t)]
+
+  # generator self-check (evidence): on how many of the tensors does n unrolls differ from 5 (8 for n = 5)?
+  for alpha in ("auto", "auto_po2"):
+    for name, t in tens[alpha]:
+      x32, shp = arr(t)
+      ref = {}
+      for n in unrolls_all:
+        ref[n], _ = call(Q.ternary(alpha=alpha, number_of_unrolls=n), x32, [], False, shp)
+      for n in unrolls_all:
+        other = ref[8] if n == 5 else ref[5]
+        if not isinstance(ref[n], Exception) and not isinstance(other, Exception):
+          run.count("unroll_%s_%s_n%d_%s" % (alpha, name, n,
+                                              "sensitive" if not np.array_equal(ref[n], other) else "INSENSITIVE"))
+
+  lines, recs = [], []
+
+  def attrs_of(obj, names):
+    return {k: _attr_plain(getattr(obj, k, "<missing>")) for k in names}
+
+  def judge_pair(cls, det_cls, label, kw, a, b, x32, shp, tag, as_numpy=False):
+    """phase 0: a (stochastic class / flag on) against b (deterministic counterpart), twice on a"""
+    ya, _ = call(a, x32, [], False, shp, as_numpy=as_numpy)
+    yb, _ = call(b, x32, [], False, shp, as_numpy=as_numpy)
+    ya2, _ = call(a, x32, [], False, shp, as_numpy=as_numpy)
+    run.compared += 2
+    run.count("sctor_twin_%s" % cls)
+    key = {"class": cls, "kind": "value", "stream": "sctor"}
+    if isinstance(yb, Exception):
+      if isinstance(ya, Exception) and type(ya) is type(yb):
+        run.count("sctor_both_raise")
+      else:
+        run.violate("inference_equal", dict(key, kind="raises"),
+                    {"cfg": label, "tensor": tag, "stochastic": str(ya)[:200], "deterministic": str(yb)[:200]},
+                    mirrored=False)
+      return None
+    for nm, yy in (("first call", ya), ("second call on the same object", ya2)):
+      if isinstance(yy, Exception):
+        kind = "random-draw-at-inference" if isinstance(yy, DrawError) else "raises"
+        run.violate("inference_equal", dict(key, kind=kind),
+                    {"cfg": label, "tensor": tag, "call": nm, "error": str(yy)[:300]}, mirrored=False)
+        return None
+      if not np.array_equal(yy, yb, equal_nan=True):
+        i = int(np.nonzero(~((yy == yb) | (np.isnan(yy) & np.isnan(yb))))[0][0])
+        run.violate("inference_equal", key,
+                    {"cfg": label, "counterpart": "%s(%s)" % (det_cls, ", ".join("%s=%r" % kv for kv in sorted(kw.items()))),
+                     "tensor": tag, "shape": list(shp), "call": nm, "x": float(x32[i]),
+                     "output": float(yy[i]), "counterpart_output": float(yb[i]),
+                     "n_bad": int(np.sum(yy != yb)), "n": int(yy.size)}, mirrored=False)
+        return None
+    return ya
+
+  # --- stochastic_ternary ------------------------------------------------------------------------------
+  st_order = ("alpha", "threshold", "temperature", "use_real_sigmoid", "number_of_unrolls")
+  cfgs = []
+  for alpha in ("auto", "auto_po2"):
+    for n in unrolls_all:
+      for T in temps:
+        for rs in (True, False):
+          cfgs.append(dict(alpha=alpha, threshold=None, temperature=T, use_real_sigmoid=rs, number_of_unrolls=n))
+  cfgs.append(dict(alpha="auto", threshold=0.5, temperature=8.0, use_real_sigmoid=True, number_of_unrolls=2))  # both assert
+  cfgs.append(dict(alpha="auto_po2", threshold=None, temperature=8.0, use_real_sigmoid=True, number_of_unrolls=0))  # both raise
+  num = []
+  for alpha in (None, 1.0, 0.5, 2.0):
+    for thr in (None, 0.0, 0.25, 0.33, 0.5, 2.0):
+      combos = [(n, T, rs) for n in unrolls_all for T in temps for rs in (True, False)]
+      if quick:
+        combos = [combos[int(i)] for i in rng.choice(len(combos), size=3, replace=False)]
+      for n, T, rs in combos:
+        num.append(dict(alpha=alpha, threshold=thr, temperature=T, use_real_sigmoid=rs, number_of_unrolls=n))
+  cfgs += num
+  for k, kw in enumerate(cfgs):
+    auto = isinstance(kw["alpha"], str)
+    routes = S_ROUTES if (auto and kw["temperature"] == 8.0) or not quick else (S_ROUTES[k % 4],)
+    form = ("py", "np32", "np64")[k % 3]
+    det_kw = dict(alpha=kw["alpha"], threshold=kw["threshold"], number_of_unrolls=kw["number_of_unrolls"])
+    for route in routes:
+      label = "stochastic_ternary(%s) via %s/%s" % (", ".join("%s=%r" % (a, kw[a]) for a in st_order), route, form)
+      run.case(("sctor", "stochastic_ternary", label))
+      try:
+        a = _build_route(Q, "stochastic_ternary", kw, st_order, route, form)
+      except Exception as e:  # pylint: disable=broad-except
+        run.count("sctor_route_unsupported_%s" % route)
+        run.extra.setdefault("sctor_route_unsupported", []).append("%s: %s" % (label, str(e)[:80]))
+        continue
+      b = Q.ternary(**det_kw)
+      # attributes against the Lean constructor model, and the base-class view against the counterpart's
+      names = ("alpha", "threshold", "use_stochastic_rounding", "number_of_unrolls", "temperature", "use_real_sigmoid")
+      lines.append({"op": "init", "cls": "stochastic_ternary", "alpha": _alpha_wire(kw["alpha"]),
+                    "threshold": _thr_wire(kw["threshold"]), "temperature": core.rj(Fraction(kw["temperature"])),
+                    "use_real_sigmoid": kw["use_real_sigmoid"], "number_of_unrolls": kw["number_of_unrolls"]})
+      recs.append(dict(kind="init", label=label, impl=attrs_of(a, names)))
+      try:
+        ca, cb = Q.ternary.get_config(a), b.get_config()
+        if {k_: _attr_plain(v) for k_, v in ca.items()} != {k_: _attr_plain(v) for k_, v in cb.items()}:
+          run.disagree("sctor-attributes", {"cfg": label, "what": "ternary.get_config(stochastic object) vs counterpart"},
+                       str(ca), str(cb))
+      except Exception as e:  # pylint: disable=broad-except
+        run.disagree("sctor-attributes", {"cfg": label}, "exception %s" % str(e)[:120], "config")
+      if auto:
+        for name, t in tens[kw["alpha"]]:
+          x32, shp = arr(t)
+          shapes = [shp]
+          if name == "cascade-small" and route == routes[0]:
+            shapes += [(shp[0] // 2, 2, shp[1]) if shp[0] % 2 == 0 else shp, (shp[0] * shp[1],)]
+          for sh in shapes:
+            ya = judge_pair("stochastic_ternary", "ternary", label, det_kw, a, b, x32, sh, "%s%s" % (name, list(sh)),
+                            as_numpy=(k % 4 == 3))
+            if ya is not None and name == "cascade-small" and sh is shp and route == routes[0] and kw["number_of_unrolls"] > 0:
+              for j in range(shp[1]):
+                col = [t[i][j] for i in range(shp[0])]
+                lines.append({"op": "tcall", "cls": "stochastic_ternary", "alpha": kw["alpha"], "threshold": None,
+                              "temperature": core.rj(Fraction(kw["temperature"])),
+                              "use_real_sigmoid": kw["use_real_sigmoid"], "number_of_unrolls": kw["number_of_unrolls"],
+                              "x": enc(col)})
+                recs.append(dict(kind="tcall", label=label, col=j, xs=col, y=ya.reshape(shp)[:, j],
+                                 exact=kw["alpha"] == "auto_po2"))
+        # histories on ONE object: a training call in between, then number_of_unrolls re-assigned
+        if route == "kw" and kw["temperature"] == 8.0 and kw["threshold"] is None and kw["number_of_unrolls"] > 0:
+          name, t = tens[kw["alpha"]][1]
+          x32, shp = arr(t)
+          r0 = (rng.integers(0, 2 ** 23, size=x32.size) / 2.0 ** 23).astype(np.float32)
+          r1 = (rng.integers(0, 2 ** 23, size=x32.size) / 2.0 ** 23).astype(np.float32)
+          yt, left = call(a, x32, [r0, r1], True, shp)
+          if isinstance(yt, Exception) or left:
+            run.disagree("sctor", {"cfg": label, "what": "training call"}, str(yt)[:200], "value, 2 draws")
+          else:
+            # the training branch runs its own scale loop `number_of_unrolls` times: same iteration as the
+            # deterministic one away from ties (cascade margins) -> self.scale is the model's last scale
+            if kw["alpha"] == "auto_po2":
+              sc = np.asarray(K.eval(a.scale), dtype=np.float32).reshape(-1)
+              for j in range(shp[1]):
+                col = [t[i][j] for i in range(shp[0])]
+                lines.append({"op": "tcall", "cls": "ternary", "alpha": "auto_po2", "threshold": None,
+                              "number_of_unrolls": kw["number_of_unrolls"], "x": enc(col)})
+                recs.append(dict(kind="train-scale", label=label, col=j, scale=Fraction(float(sc[j]))))
+          judge_pair("stochastic_ternary", "ternary", label + " after a training call", det_kw, a, b, x32, shp, name)
+          n2 = int(unrolls_all[(unrolls_all.index(kw["number_of_unrolls"]) + 1) % len(unrolls_all)])
+          a.number_of_unrolls = n2
+          b2 = Q.ternary(alpha=kw["alpha"], number_of_unrolls=n2)
+          judge_pair("stochastic_ternary", "ternary", label + " then number_of_unrolls=%d assigned" % n2,
+                     dict(det_kw, number_of_unrolls=n2), a, b2, x32, shp, name)
+      else:
+        sh = [(16, 4), (64,), (4, 2, 2, 4), (1, 64)][k % 4]
+        ya = judge_pair("stochastic_ternary", "ternary", label, det_kw, a, b, flat32, sh, "flat%s" % list(sh),
+                        as_numpy=(k % 5 == 4))
+        if ya is not None and kw["alpha"] is not None:
+          lines.append({"op": "tcall", "cls": "stochastic_ternary", "alpha": _alpha_wire(kw["alpha"]),
+                        "threshold": _thr_wire(kw["threshold"]), "temperature": core.rj(Fraction(kw["temperature"])),
+                        "use_real_sigmoid": kw["use_real_sigmoid"], "number_of_unrolls": kw["number_of_unrolls"],
+                        "x": enc(flat)})
+          recs.append(dict(kind="tcall", label=label, col=0, xs=flat, y=ya, exact=True))
+        if kw["alpha"] is None and route in ("kw", "pos"):
+          # handed to a layer: _set_trainable_parameter turns alpha None into 'auto_po2' on both
+          a._set_trainable_parameter()   # pylint: disable=protected-access
+          b._set_trainable_parameter()   # pylint: disable=protected-access
+          if kw["threshold"] is None:
+            name, t = tens["auto_po2"][1]
+            x32, shp = arr(t)
+            judge_pair("stochastic_ternary", "ternary", label + " after _set_trainable_parameter()",
+                       dict(det_kw, alpha="auto_po2"), a, b, x32, shp, name)
+
+  # --- ternary(use_stochastic_rounding=True) against ternary(): every number of unrolls -----------------------
+  for alpha in ("auto", "auto_po2"):
+    for n in unrolls_all:
+      kw = dict(alpha=alpha, number_of_unrolls=n)
+      label = "ternary(alpha=%r, use_stochastic_rounding=True, number_of_unrolls=%d)" % (alpha, n)
+      run.case(("sctor", "ternary", label))
+      for route in ("kw", "from_config", "str"):
+        a = _build_route(Q, "ternary", dict(kw, use_stochastic_rounding=True), None, route, "py")
+        b = Q.ternary(**kw)
+        lines.append({"op": "init", "cls": "ternary", "alpha": alpha, "threshold": None,
+                      "use_stochastic_rounding": True, "number_of_unrolls": n})
+        recs.append(dict(kind="init", label=label + " via " + route,
+                         impl=attrs_of(a, ("alpha", "threshold", "use_stochastic_rounding", "number_of_unrolls"))))
+        for name, t in tens[alpha]:
+          x32, shp = arr(t)
+          judge_pair("ternary", "ternary", label + " via " + route, kw, a, b, x32, shp, name)
+
+  # --- stochastic_binary ------------------------------------------------------------------------------------
+  sb_order = ("alpha", "temperature", "use_real_sigmoid")
+  k = 0
+  for alpha in (None, 1.0, 0.5, 2.0, "auto", "auto_po2"):
+    for T in (6.0, 1.0, 0.25):
+      for rs in (True, False):
+        kw = dict(alpha=alpha, temperature=T, use_real_sigmoid=rs)
+        k += 1
+        for route in (S_ROUTES if T == 6.0 or not quick else (S_ROUTES[k % 4],)):
+          form = ("py", "np32", "np64")[k % 3]
+          label = "stochastic_binary(%s) via %s/%s" % (", ".join("%s=%r" % (a_, kw[a_]) for a_ in sb_order), route, form)
+          run.case(("sctor", "stochastic_binary", label))
+          a = _build_route(Q, "stochastic_binary", kw, sb_order, route, form)
+          b = Q.binary(alpha=alpha)
+          lines.append({"op": "init", "cls": "stochastic_binary", "alpha": _alpha_wire(alpha),
+                        "temperature": core.rj(Fraction(T)), "use_real_sigmoid": rs})
+          recs.append(dict(kind="init", label=label,
+                           impl=attrs_of(a, ("use_01", "alpha", "use_stochastic_rounding", "temperature", "use_real_sigmoid"))))
+          ca, cb = Q.binary.get_config(a), b.get_config()
+          if {k_: _attr_plain(v) for k_, v in ca.items()} != {k_: _attr_plain(v) for k_, v in cb.items()}:
+            run.disagree("sctor-attributes", {"cfg": label, "what": "binary.get_config(stochastic object) vs counterpart"},
+                         str(ca), str(cb))
+          sh = [(16, 4), (64,), (4, 2, 2, 4), (64, 1)][k % 4]
+          judge_pair("stochastic_binary", "binary", label, dict(alpha=alpha), a, b, flat32, sh, "flat%s" % list(sh),
+                     as_numpy=(k % 5 == 4))
+          if isinstance(alpha, str):
+            name, t = tens[alpha][1]
+            x32, shp = arr(t)
+            judge_pair("stochastic_binary", "binary", label, dict(alpha=alpha), a, b, x32, shp, name)
+
+  # --- Lean: constructor attributes, whole calls -----------------------------------------------------------------
+  outs = core.run_driver("C08", lines)
+  for rec, o in zip(recs, outs):
+    if rec["kind"] == "init":
+      run.compared += 1
+      model = {k_: _model_attr(v) for k_, v in o.items()}
+      if model != rec["impl"]:
+        bad = sorted(k_ for k_ in model if model[k_] != rec["impl"].get(k_, "<missing>"))
+        run.disagree("sctor-init", {"cfg": rec["label"], "attributes": bad},
+                     {k_: str(rec["impl"].get(k_)) for k_ in bad}, {k_: str(model[k_]) for k_ in bad})
+      else:
+        run.count("sctor_init_ok")
+    elif rec["kind"] == "train-scale":
+      run.compared += 1
+      if not o["band_ok"]:
+        run.count("sctor_band_skipped")
+        continue
+      ms = dec(o["scales"])[-1]
+      run.count("sctor_train_scale")
+      if ms != rec["scale"]:
+        run.disagree("sctor-train-scale", {"cfg": rec["label"], "column": rec["col"]}, str(rec["scale"]), str(ms))
+    else:
+      if o["y"] is None:
+        run.disagree("sctor-call", {"cfg": rec["label"]}, "value", "model: the call raises")
+        continue
+      if not o["band_ok"]:
+        run.count("sctor_band_skipped")
+        continue
+      model = dec(o["y"])
+      impl = fr_list(rec["y"])
+      run.compared += len(impl)
+      run.count("sctor_call_exact" if rec["exact"] else "sctor_call_pattern")
+      if not rec["exact"]:
+        sg = lambda v: (v > 0) - (v < 0)
+        model, impl = [sg(v) for v in model], [sg(v) for v in impl]
+      for i, (a_, b_) in enumerate(zip(impl, model)):
+        if a_ != b_:
+          run.disagree("sctor-call", {"cfg": rec["label"], "column": rec["col"], "x": str(rec["xs"][i]),
+                                      "compared": "value" if rec["exact"] else "sign pattern"}, str(a_), str(b_))
+          break
 
 
 # ---- cross-cutting: argument forms, ranks, numpy inputs, histories on one object ----------------------
